@@ -211,6 +211,21 @@ def vfstr(parts):
                 d = tab[SInt(z3.simplify(z3.Extract(4 * k + 3, 4 * k, e)), 4)]
                 cells.append(chr(d) if isinstance(d, int) else (chr(d.concrete()) if d.concrete() is not None else z3.ZeroExt(13, d.e)))
             out = out + SStr(cells, [1] * n)
+        elif isinstance(val, ZInt) and conv == -1 and spec in ("x", "X"):
+            # {n:x} of a symbolic non-negative integer: fork on the number of hex digits
+            if not bool(val >= 0):
+                raise Unsupported("hex rendering of a negative symbolic integer")
+            k = 1
+            while not bool(val < 16 ** k):
+                k += 1
+                if k > 16:
+                    raise Unsupported("integer too large for the hex model")
+            tab = STable(list(b"0123456789abcdef" if spec == "x" else b"0123456789ABCDEF"), "hexfmt." + spec, 8)
+            cells = []
+            for i in range(k - 1, -1, -1):
+                d = tab[SInt(z3.simplify(z3.Int2BV((val.e / (16 ** i)) % 16, 4)), 4)]
+                cells.append(chr(d) if isinstance(d, int) else (chr(d.concrete()) if d.concrete() is not None else z3.ZeroExt(13, d.e)))
+            out = out + SStr(cells, [1] * k)
         elif isinstance(val, (SInt, ZInt, SStr, SBytes)) and conv == 114:
             out = out + "<symbolic value>"          # {x!r}: diagnostics only
         elif isinstance(val, (SInt, ZInt, SStr, SBytes)):
@@ -263,6 +278,15 @@ def vidx(obj, idx):
                 p = c
             conc.append(p)
         return obj[slice(*conc)]
+    if isinstance(obj, dict) and isinstance(idx, (SStr, SBytes)):
+        # dictionary look-up with symbolic text: one fork per key of the same type (what hashing + == would decide)
+        c = idx.concrete()
+        if c is not None:
+            return obj[c]
+        for k in obj:
+            if isinstance(k, str if isinstance(idx, SStr) else bytes) and len(k) == len(idx) and bool(idx == k):
+                return obj[k]
+        raise KeyError("<symbolic key>")
     if not sym_idx:
         return obj[idx]
     if isinstance(obj, (list, tuple, bytes, bytearray)) and isinstance(idx, SInt):
